@@ -24,6 +24,8 @@ one diagnostic layer per set, emitted as ODX and loaded by the real loader.  Per
     variant inheriting everything from a base variant) the layer is used, then a service is dropped and/or the SID
     constants of a service are changed on the loaded objects, Database.refresh() is called and every decode /
     decode_response / service_groups answer must equal that of a database freshly loaded from the edited description.
+  * inheritance: an ECU variant inherits services and two global negative responses from a base variant; its PARENT-REF
+    excludes none / one / both of them; the child's answers are judged with the excluded ones removed from the reference.
 A third alphabet has sibling services with one SID told apart by a PHYS-CONST identifier which the responses echo.
 Oracle: odxmodel.refdispatch (three-valued, independent).  See the module docstring there.
 """
@@ -60,6 +62,11 @@ def ccn(name: str, v: int, bits: int, byte: Optional[int] = None, bit: Optional[
     if bit is not None:
         d["bit"] = bit
     return d
+
+
+def mmc(name: str, value: bytes, term: str) -> Dict[str, Any]:
+    """CODED-CONST of a MIN-MAX-LENGTH byte field (1..4 bytes), value shorter than the maximum"""
+    return {"t": "CODED-CONST", "name": name, "dct": {"k": "MINMAX", "base": "A_BYTEFIELD", "min": 1, "max": 4, "term": term}, "value": value}
 
 
 def physc(name: str, dop: str, const: int) -> Dict[str, Any]:
@@ -160,6 +167,21 @@ SHAPES.update({
 })
 EMPTY_NAMES = ["Z10", "Zrq"]
 EMPTY_ALPHABET = EMPTY_NAMES + ["S10b", "S1001"]
+# sixth alphabet: the LAST parameter of request and response is a MIN-MAX-LENGTH constant (all three terminations); at
+# the end of the PDU it is encoded without its terminator, so the constant prefix is the whole message
+RESPONSES.update({
+    "pr6Ez": {"kind": "POS-RESPONSE", "params": [cc("sid", 0x6E), mmc("id", b"AB", "ZERO")]},
+    "pr6Ef": {"kind": "POS-RESPONSE", "params": [cc("sid", 0x6E), mmc("id", b"AC", "HEX-FF")]},
+    "pr6Ee": {"kind": "POS-RESPONSE", "params": [cc("sid", 0x6E), mmc("id", b"A", "END-OF-PDU")]},
+})
+SHAPES.update({
+    "M2Ez": ([cc("sid", 0x2E), mmc("id", b"AB", "ZERO")], "pr6Ez", "nrA"),          # 2E 41 42
+    "M2Ef": ([cc("sid", 0x2E), mmc("id", b"AC", "HEX-FF")], "pr6Ef", "nrB"),        # 2E 41 43
+    "M2Ee": ([cc("sid", 0x2E), mmc("id", b"A", "END-OF-PDU")], "pr6Ee", None),      # 2E 41
+    "S2Eb": ([cc("sid", 0x2E), val("x", "u8")], "pr6Ee", "nrA"),                    # 2E xx
+})
+MM_NAMES = ["M2Ez", "M2Ef", "M2Ee"]
+MM_ALPHABET = MM_NAMES + ["S2Eb"]
 GAP_NAMES = ["G2F", "G2Fn"]
 GAP_ALPHABET = GAP_NAMES + ["S2F00", "S2Fb"]
 VALUES = {"u8": [0x00, 0x01, 0x5A, 0xFF], "u16": [0x0000, 0x0102, 0xF190, 0xA55A], "u4": [0x0, 0x1, 0xA, 0xF]}
@@ -824,7 +846,73 @@ def refresh_unit_fn(unit: Tuple[str, int, List[Tuple[Tuple[str, ...], int, str, 
     return part
 
 
+# ---------------------------------------------------------------------------------------------
+# inheritance: a PARENT-REF may exclude global negative responses of the parent (NOT-INHERITED-GLOBAL-NEG-RESPONSES)
+# ---------------------------------------------------------------------------------------------
+INH_ALPHABET = ["S10b", "S1001b", "S10w", "S22F1"]  # (with and without own negative responses)
+EXCLUSIONS: List[Tuple[str, ...]] = [(), ("gnr1",), ("gnr2",), ("gnr1", "gnr2")]
+
+
+def inherit_confs() -> List[Tuple[Tuple[str, ...], Tuple[str, ...]]]:
+    sets = [t for n in (1, 2) for t in itertools.permutations(INH_ALPHABET, n)]
+    return [(t, ex) for t in sets for ex in EXCLUSIONS]
+
+
+def inherit_layers(shapes: Tuple[str, ...], excluded: Tuple[str, ...]) -> Tuple[Any, Any, refdispatch.RefLayer, refdispatch.RefLayer]:
+    """base variant P0 (the services + gnr1 + gnr2) and ECU variant L0 inheriting from it without `excluded`
+    -> (parent layer, child layer, reference of the parent, reference of the child)"""
+    spec = layer_spec("P0", list(shapes), 2)
+    child = {"type": "ECU-VARIANT", "name": "L0", "parents": [{"layer": "P0", "not_inherited": {"gnrs": list(excluded)}}]}
+    db = emit.load_db({"containers": [{"name": "C", "layers": [spec, child]}]})
+    cspec = dict(spec, msgs=[m for m in spec["msgs"] if m["name"] not in excluded])
+    return db.diag_layers["P0"], db.diag_layers["L0"], refdispatch.RefLayer(spec), refdispatch.RefLayer(cspec)
+
+
+def inherit_case(shapes: Tuple[str, ...], excluded: Tuple[str, ...], who: str, M: bytes) -> Dict[str, Any]:
+    return {"services": list(shapes), "gnrs": 2, "op": "inherit", "excluded": list(excluded), "layer": who, "msg": M.hex()}
+
+
+def check_inherit(conf: Tuple[Tuple[str, ...], Tuple[str, ...]], maxlen: int, part: Part, only: Optional[Tuple[str, bytes]] = None) -> None:
+    shapes, excluded = conf
+    parent, child, pref, cref = inherit_layers(shapes, excluded)
+    part.count("inherit_runs")
+    part.add("exclusions", "+".join(excluded) or "-")
+    alpha = byte_alphabet(pref)
+    msgs = {bytes(t) for n in range(0, maxlen + 1) for t in itertools.product(alpha, repeat=n)}
+    rqs, rsps = own_messages(pref)
+    msgs.update(R for _, _, _, R in rqs)
+    msgs.update(P for _, _, _, P, _ in rsps)
+    for who, layer, ref in (("child", child, cref), ("parent", parent, pref)):
+        for M in (sorted(msgs) if only is None else [only[1]]):
+            if only is not None and only[0] != who:
+                continue
+            obs = observe(layer.decode, M)
+            part.count("evaluations")
+            part.count("inherit_calls")
+            if who == "child" and excluded and obs[0] == "DecodeError" and any(e["status"] == MUST for e in pref.expect(M).values()):
+                part.count("messages_only_an_excluded_gnr_interprets")
+            for key, detail in judge(ref, M, obs, "decode"):
+                report(part, key.replace("C06/", f"C06/inherit/{who}/", 1), inherit_case(shapes, excluded, who, M),
+                       f"ECU variant inheriting {list(shapes)} + gnr1, gnr2 from a base variant, NOT-INHERITED-GLOBAL-NEG-RESPONSES {list(excluded)}; "
+                       f"{who} layer: " + detail)
+
+
+def inherit_unit_fn(unit: Tuple[str, int, List[Tuple[Tuple[str, ...], Tuple[str, ...]]]]) -> Part:
+    _, maxlen, confs = unit
+    part = Part()
+    import odxtools.exceptions as oe
+    oe.strict_mode = True
+    with warnings.catch_warnings():
+        warnings.simplefilter("ignore")
+        for conf in confs:
+            check_inherit(conf, maxlen, part)
+    shutil.rmtree(emit.scratch_dir(), ignore_errors=True)
+    return part
+
+
 def any_unit_fn(unit: Any) -> Part:
+    if unit[0] == "inherit":
+        return inherit_unit_fn(unit)
     return refresh_unit_fn(unit) if unit[0] == "refresh" else unit_fn(unit)
 
 
@@ -936,6 +1024,14 @@ def empty_confs(maxsize: int) -> List[Tuple[Tuple[str, ...], int]]:
     return out
 
 
+def mm_sets(maxsize: int) -> List[Tuple[str, ...]]:
+    """all ordered sets over the sixth alphabet that contain at least one MIN-MAX-LENGTH shape"""
+    out: List[Tuple[str, ...]] = []
+    for n in range(1, maxsize + 1):
+        out.extend(t for t in itertools.permutations(MM_ALPHABET, n) if set(t) & set(MM_NAMES))
+    return out
+
+
 def build(confs: List[Tuple[Tuple[str, ...], int]]) -> Tuple[Any, List[Dict[str, Any]]]:
     specs = [layer_spec(f"L{i}", list(shapes), ngnr) for i, (shapes, ngnr) in enumerate(confs)]
     db = emit.load_db({"containers": [{"name": "C", "layers": specs}]})
@@ -999,7 +1095,7 @@ def samples(ctx: Ctx) -> None:
 def run(ctx: Ctx) -> None:
     maxset = 2 if ctx.quick else 3
     maxlen = 3 if ctx.quick else 4
-    sets = service_sets(maxset) + wide_sets(maxset) + pc_sets(maxset) + gap_sets(maxset)
+    sets = service_sets(maxset) + wide_sets(maxset) + pc_sets(maxset) + gap_sets(maxset) + mm_sets(maxset)
     confs = [(s, g) for s in sets for g in (0, 1, 2)] + empty_confs(maxset)
     # big layers first, chunks sized by expected work (alphabet^maxlen grows with the number of services)
     confs.sort(key=lambda c: (-len(c[0]), c[1], c[0]))
@@ -1020,6 +1116,7 @@ def run(ctx: Ctx) -> None:
                                       "what": "a variable byte / nibble between two constants, listed after them (prefix ends at the gap)"},
                   "fifth_alphabet": {"shapes": EMPTY_ALPHABET, "what": "a positive response / a request without any parameter; GNR configuration 3 = "
                                      "a global negative response without any parameter (with every ordered set of this alphabet)"},
+                  "sixth_alphabet": {"shapes": MM_ALPHABET, "what": "last parameter of request and response = MIN-MAX-LENGTH constant (ZERO, HEX-FF, END-OF-PDU)"},
                   "call_sequences": "all sequences of 3 calls over the op alphabet of a layer (per service: decode(request), decode(response), "
                                     "decode_response(response, request)), each sequence on its own freshly loaded layer object; "
                                     + ("layers with <= 2 services and no GNR (2 ops per service for 2 services)" if ctx.quick else
@@ -1051,13 +1148,19 @@ def run(ctx: Ctx) -> None:
     ctx.bounds["refresh"] = {"layer_kinds": KINDS, "edits": EDITS, "service_sets": f"all ordered sets of 1..2 of {REFRESH_ALPHABET}",
                              "gnrs": "0, 1" if ctx.quick else "0, 1, 2", "runs": len(rconfs),
                              "messages": f"all byte strings of length <= {2 if ctx.quick else 3} over the constants of the old and the edited description + their own encodings"}
-    pmap(ctx, any_unit_fn, units + runits)
+    iconfs = inherit_confs()
+    iunits: List[Any] = [("inherit", 3 if ctx.quick else 4, iconfs[i:i + 4]) for i in range(0, len(iconfs), 4)]
+    ctx.bounds["inheritance"] = {"what": "ECU variant inheriting services + gnr1 + gnr2 from a base variant; its PARENT-REF excludes "
+                                 "none / gnr1 / gnr2 / both (NOT-INHERITED-GLOBAL-NEG-RESPONSES); child and parent are judged",
+                                 "service_sets": f"all ordered sets of 1..2 of {INH_ALPHABET}", "runs": len(iconfs),
+                                 "messages": f"all byte strings of length <= {3 if ctx.quick else 4} over the layer's constants + own encodings"}
+    pmap(ctx, any_unit_fn, units + runits + iunits)
     canonical_witnesses(ctx)
     samples(ctx)
     ctx.counts["traces_validated_against_impl"] = ctx.counts.get("decode_calls", 0) + ctx.counts.get("decode_response_calls", 0)
     ctx.counts["states"] = ctx.counts.get("layers", 0)
     ctx.counts["transitions"] = ctx.counts.get("evaluations", 0)
-    ctx.guard("every service shape used", ctx.sets.get("shapes", set()) == set(SHAPE_NAMES) | set(WIDE_NAMES) | set(PC_NAMES) | set(GAP_ALPHABET) | set(EMPTY_NAMES))
+    ctx.guard("every service shape used", ctx.sets.get("shapes", set()) == set(SHAPE_NAMES) | set(WIDE_NAMES) | set(PC_NAMES) | set(GAP_ALPHABET) | set(EMPTY_NAMES) | set(MM_ALPHABET))
     ctx.guard("all four GNR configurations used", ctx.sets.get("gnr_configs", set()) == {0, 1, 2, 3})
     ctx.guard("decode both reported and refused messages", ctx.counts.get("decode_reports", 0) > 100 and ctx.counts.get("decode_errors", 0) > 100)
     ctx.guard("MUST, MAY and MUST-NOT services all seen", ctx.sets.get("status", set()) == {MUST, MAY, MUSTNOT})
@@ -1072,6 +1175,8 @@ def run(ctx: Ctx) -> None:
     ctx.guard("decode_response with arbitrary request strings: > 10000 calls, > 100 of them reported something",
               ctx.counts.get("decode_response_arbitrary_request_calls", 0) > 10000 and ctx.counts.get("foreign_request_reports", 0) > 100)
     ctx.guard("own responses re-encoded from their reported values > 100", ctx.counts.get("reencoded_responses", 0) > 100)
+    ctx.guard("inheritance: every exclusion explored and > 50 messages seen that only an excluded GNR interprets",
+              ctx.sets.get("exclusions", set()) == {"-", "gnr1", "gnr2", "gnr1+gnr2"} and ctx.counts.get("messages_only_an_excluded_gnr_interprets", 0) > 50)
     ctx.guard("own requests demanded > 100", ctx.counts.get("own_requests_must", 0) > 100)
 
 
@@ -1089,6 +1194,10 @@ def replay(case: Any) -> List[Tuple[str, str]]:
             layer._prefix_tree  # noqa
         except Exception as ex:  # noqa
             return [(f"C06/prefix-tree/raises-{type(ex).__name__}", str(ex)[:200])]
+        if case["op"] == "inherit":
+            part = Part()
+            check_inherit((tuple(shapes), tuple(case["excluded"])), 0, part, only=(case["layer"], bytes.fromhex(case["msg"])))
+            return [(k, v[2]) for k, v in part.viol.items()]
         if case["op"] == "layer":
             part = Part()
             check_layer(layer, ref, shapes, ngnr, int(case["maxlen"]), part, qlen=int(case["qlen"]))
